@@ -327,6 +327,10 @@ Module Spec.
   |}.
 End Spec.
 
+(* The printer follows the DOCUMENTED table; the parser of the theorems below runs on the REGENERATED one. *)
+Definition tokens_min (e : expr) : list token :=
+  tokens Spec.documented_levels Spec.documented_unary e.
+
 (* ============================================================================================ *)
 (* Well-formedness of a table (decidable; holds of the regenerated one by computation)          *)
 (* ============================================================================================ *)
@@ -360,3 +364,895 @@ Definition table_ok (lv : list level) (un : list (optok * unop)) : bool :=
   forallb (bin_ok lv) all_binops
   && forallb (un_ok un) all_unops
   && negb (in_levels_below lv (length lv) SPECULATION).
+
+(* ============================================================================================ *)
+(* Round trip: parse (print e) = e, for every table satisfying table_ok                         *)
+(* ============================================================================================ *)
+
+(* Fuel: one unit per node of the tree is enough (S (size e) at the top). *)
+Fixpoint size (e : expr) : nat :=
+  match e with
+  | EInt _ | EBool _ | EVar _ => 1
+  | EUn _ a => S (size a)
+  | EIs a _ _ => S (size a)
+  | EBin _ l r => S (size l + size r)
+  | ESpec l r => S (size l + size r)
+  | ELen a => S (size a)
+  | EIdx a i => S (size a + size i)
+  end.
+
+(* Well-formed trees = trees hidc can produce at all from an expression in a YOU context:
+   - integer literals are non-negative (`-5` is Neg(5));
+   - `is` never names the type `empty`;
+   - `??` occurs only where the context still has YOU: not below another `??` (its operands are
+     parsed in a context with YOU removed, parentheses and index brackets included). *)
+Fixpoint wf_in (you : bool) (e : expr) : Prop :=
+  match e with
+  | EInt z => (0 <= z)%Z
+  | EBool _ | EVar _ => True
+  | EUn _ a => wf_in you a
+  | EIs a t _ => t <> DEmpty /\ wf_in you a
+  | EBin _ l r => wf_in you l /\ wf_in you r
+  | ESpec l r => you = true /\ wf_in false l /\ wf_in false r
+  | ELen a => wf_in you a
+  | EIdx a i => wf_in you a /\ wf_in you i
+  end.
+
+Definition wf_expr : expr -> Prop := wf_in true.
+
+Lemma wf_in_mono : forall e, wf_in false e -> wf_in true e.
+Proof.
+  induction e; simpl; intuition; discriminate.
+Qed.
+
+Lemma mem_op_lookup_none : forall (A : Type) o (ops : list (optok * A)),
+  mem_op o (keys_of ops) = false -> lookup o ops = None.
+Proof.
+  induction ops as [|[k v] tl IH]; simpl; intro H; [reflexivity|].
+  apply orb_false_iff in H. destruct H as [H1 H2]. rewrite H1. auto.
+Qed.
+
+Lemma lookup_below : forall lv j o j',
+  in_levels_below lv j o = false -> j' < j -> lookup o (nth j' lv []) = None.
+Proof.
+  unfold in_levels_below.
+  induction lv as [|ops tl IH]; intros j o j' H Hlt.
+  - destruct j'; reflexivity.
+  - destruct j as [|j]; [lia|]. simpl in H. apply orb_false_iff in H. destruct H as [H1 H2].
+    destruct j' as [|j']; simpl.
+    + apply mem_op_lookup_none; exact H1.
+    + apply (IH j); [exact H2 | lia].
+Qed.
+
+Lemma in_levels_below_mono : forall lv j j' o,
+  in_levels_below lv j o = false -> j' <= j -> in_levels_below lv j' o = false.
+Proof.
+  unfold in_levels_below.
+  induction lv as [|ops tl IH]; intros j j' o H Hle.
+  - destruct j'; reflexivity.
+  - destruct j' as [|j']; [reflexivity|]. destruct j as [|j]; [lia|].
+    simpl in *. apply orb_false_iff in H. destruct H as [H1 H2]. rewrite H1. simpl.
+    apply (IH j); [exact H2 | lia].
+Qed.
+
+Section Roundtrip.
+  Variable lvls : list level.
+  Variable unops : list (optok * unop).
+  Hypothesis Hok : table_ok lvls unops = true.
+
+  Notation tokens := (tokens lvls unops).
+  Notation pr := (pr lvls unops).
+  Notation level_of := (level_of lvls).
+  Notation topk := (topk lvls).
+  Notation bin_pos := (bin_pos lvls).
+  Notation un_tok := (un_tok unops).
+  Notation ptop := (p_top lvls unops).
+
+  (* ---- facts about a well-formed table ---- *)
+
+  Lemma bin_fact : forall b,
+    lookup (snd (bin_pos b)) (nth (fst (bin_pos b)) lvls []) = Some b /\
+    in_levels_below lvls (fst (bin_pos b)) (snd (bin_pos b)) = false /\
+    snd (bin_pos b) <> IS /\
+    fst (bin_pos b) < length lvls.
+  Proof.
+    intro b. unfold table_ok in Hok.
+    apply andb_true_iff in Hok. destruct Hok as [H12 _].
+    apply andb_true_iff in H12. destruct H12 as [H1 _].
+    rewrite forallb_forall in H1. specialize (H1 b (all_binops_complete b)).
+    unfold bin_ok in H1. unfold ExprParser.bin_pos.
+    destruct (find_bin b lvls 0) as [[j o]|]; [|discriminate]. simpl.
+    apply andb_true_iff in H1. destruct H1 as [H1 H3].
+    apply andb_true_iff in H1. destruct H1 as [H1 H2].
+    assert (Hl : lookup o (nth j lvls []) = Some b).
+    { destruct (lookup o (nth j lvls [])) as [b'|]; [|discriminate].
+      apply binop_eqb_eq in H1. congruence. }
+    split; [exact Hl|]. split.
+    - apply negb_true_iff in H2. exact H2.
+    - split.
+      + apply negb_true_iff in H3. intro E. subst o. discriminate.
+      + destruct (Nat.lt_ge_cases j (length lvls)) as [?|Hge]; [assumption|].
+        rewrite nth_overflow in Hl by exact Hge. discriminate.
+  Qed.
+
+  Lemma un_fact : forall u, lookup (un_tok u) unops = Some u.
+  Proof.
+    intro u. unfold table_ok in Hok.
+    apply andb_true_iff in Hok. destruct Hok as [H12 _].
+    apply andb_true_iff in H12. destruct H12 as [_ H2].
+    rewrite forallb_forall in H2. specialize (H2 u (all_unops_complete u)).
+    unfold un_ok in H2. unfold ExprParser.un_tok.
+    destruct (find_un u unops) as [o|]; [|discriminate].
+    destruct (lookup o unops) as [u'|]; [|discriminate].
+    apply unop_eqb_eq in H2. congruence.
+  Qed.
+
+  Lemma spec_fact : in_levels_below lvls (length lvls) SPECULATION = false.
+  Proof.
+    unfold table_ok in Hok. apply andb_true_iff in Hok. destruct Hok as [_ H].
+    apply negb_true_iff in H. exact H.
+  Qed.
+
+  (* ---- which token may follow an expression parsed at rule k ---- *)
+
+  Definition stop_tok (k : nat) (t : token) : bool :=
+    match t with
+    | TDot | TLSquare | TLParen => false
+    | TOp o =>
+        negb (in_levels_below lvls (k - 3) o)
+        && (if 3 <=? k then negb (optok_eqb o IS) else true)
+        && (if topk <=? k then negb (optok_eqb o SPECULATION) else true)
+    | _ => true
+    end.
+
+  Definition follow_ok (k : nat) (rest : list token) : Prop :=
+    match rest with
+    | [] => True
+    | t :: _ => stop_tok k t = true
+    end.
+
+  Lemma stop_tok_op : forall k o,
+    stop_tok k (TOp o) = true <->
+    in_levels_below lvls (k - 3) o = false /\ (3 <= k -> o <> IS) /\
+    (topk <= k -> o <> SPECULATION).
+  Proof.
+    intros k o. unfold stop_tok.
+    rewrite !andb_true_iff, negb_true_iff.
+    assert (Hneq : forall x, negb (optok_eqb o x) = true <-> o <> x).
+    { intro x. rewrite negb_true_iff. split.
+      - intros H E. apply optok_eqb_eq in E. congruence.
+      - intro H. destruct (optok_eqb o x) eqn:E; [|reflexivity].
+        apply optok_eqb_eq in E. contradiction. }
+    destruct (Nat.leb_spec 3 k); destruct (Nat.leb_spec topk k); rewrite ?Hneq;
+      intuition; try lia.
+  Qed.
+
+  Lemma follow_ok_mono : forall k k' rest, k' <= k -> follow_ok k rest -> follow_ok k' rest.
+  Proof.
+    intros k k' [|t r] Hle H; [exact I|]. unfold follow_ok in *.
+    destruct t; try exact H.
+    apply stop_tok_op in H. apply stop_tok_op. destruct H as (H1 & H2 & H3).
+    split; [|split].
+    - apply (in_levels_below_mono lvls (k - 3)); [exact H1 | lia].
+    - intro. apply H2. lia.
+    - intro. apply H3. lia.
+  Qed.
+
+  Definition nolp (rest : list token) : Prop :=
+    match rest with TLParen :: _ => False | _ => True end.
+
+  Lemma follow_nolp : forall k rest, follow_ok k rest -> nolp rest.
+  Proof. intros k [|[] r] H; simpl in *; try exact I. discriminate. Qed.
+
+  Definition nonop_head (toks : list token) : bool :=
+    match toks with TOp _ :: _ => false | _ => true end.
+
+  (* ---- the parser for rule k (1 <= k < topk) at fuel f in context you ---- *)
+
+  Definition rule (f : nat) (you : bool) (k : nat) : list token -> pres :=
+    match k with
+    | 0 | 1 => p_postfix (ptop f you) f
+    | 2 => p_unary unops (ptop f you) f
+    | S (S (S j)) => ladder lvls unops (ptop f you) f j
+    end.
+
+  (* ---- climbing: a result of a tighter rule is the result of a looser rule when the next
+          token stops all the rules in between ---- *)
+
+  Lemma postfix_loop_stop : forall topf m e rest,
+    follow_ok 1 rest -> postfix_loop topf m e rest = POk e rest.
+  Proof.
+    intros topf m e [|t r] H; destruct m; simpl; try reflexivity;
+      destruct t; simpl in H; try discriminate; reflexivity.
+  Qed.
+
+  Lemma climb_post : forall topf m toks e rest,
+    p_primary topf toks = POk e rest -> follow_ok 1 rest ->
+    p_postfix_m topf m toks = POk e rest.
+  Proof.
+    intros. unfold p_postfix_m. rewrite H. apply postfix_loop_stop; assumption.
+  Qed.
+
+  Lemma p_unary_nonop : forall topf n toks,
+    nonop_head toks = true -> p_unary unops topf n toks = p_postfix topf n toks.
+  Proof.
+    intros topf n [|t r] H; [reflexivity|]. destruct t; try reflexivity. discriminate.
+  Qed.
+
+  Lemma climb_is : forall topf n toks e rest,
+    p_unary unops topf n toks = POk e rest -> follow_ok 3 rest ->
+    p_is unops topf n toks = POk e rest.
+  Proof.
+    intros topf n toks e rest H F. unfold p_is. rewrite H.
+    destruct rest as [|t r]; [reflexivity|]. destruct t; try reflexivity.
+    destruct o; try reflexivity.
+    unfold follow_ok in F. apply stop_tok_op in F. destruct F as (_ & F & _).
+    exfalso. apply F; [lia | reflexivity].
+  Qed.
+
+  Lemma binloop_stop : forall sub j m e rest k,
+    j < k - 3 -> follow_ok k rest ->
+    binloop sub (nth j lvls []) m e rest = POk e rest.
+  Proof.
+    intros sub j m e [|t r] k Hj F; destruct m; simpl; try reflexivity;
+      destruct t; try reflexivity; unfold follow_ok in F;
+      apply stop_tok_op in F; destruct F as (F & _ & _);
+      rewrite (lookup_below lvls (k - 3) o j F Hj); reflexivity.
+  Qed.
+
+  Lemma climb_ladder : forall topf n toks e rest j j',
+    ladder lvls unops topf n j toks = POk e rest -> j <= j' -> follow_ok (3 + j') rest ->
+    ladder lvls unops topf n j' toks = POk e rest.
+  Proof.
+    intros topf n toks e rest j j' H Hle F.
+    induction j' as [|j' IH].
+    - assert (j = 0) by lia. subst j. exact H.
+    - destruct (Nat.eq_dec j (S j')) as [->|Hne]; [exact H|].
+      simpl. unfold p_binlevel_m. rewrite IH.
+      + apply (binloop_stop _ j' n e rest (3 + S j')); [lia | exact F].
+      + lia.
+      + apply (follow_ok_mono (3 + S j')); [lia | exact F].
+  Qed.
+
+  Lemma climb_rule : forall f you k toks e rest,
+    p_primary (ptop f you) toks = POk e rest -> nonop_head toks = true ->
+    1 <= k -> follow_ok k rest ->
+    rule f you k toks = POk e rest.
+  Proof.
+    intros f you k toks e rest H Hh Hk F.
+    assert (H1 : p_postfix (ptop f you) f toks = POk e rest).
+    { apply climb_post; [exact H|]. apply (follow_ok_mono k); [lia | exact F]. }
+    destruct k as [|[|[|j]]]; simpl; try exact H1; try lia.
+    - rewrite p_unary_nonop by exact Hh. exact H1.
+    - apply (climb_ladder _ _ _ _ _ 0); [|lia|exact F].
+      simpl. apply climb_is.
+      + rewrite p_unary_nonop by exact Hh. exact H1.
+      + apply (follow_ok_mono (3 + j)); [lia | exact F].
+  Qed.
+
+  Lemma climb_from_unary : forall f you k toks e rest,
+    p_unary unops (ptop f you) f toks = POk e rest ->
+    2 <= k -> follow_ok k rest ->
+    rule f you k toks = POk e rest.
+  Proof.
+    intros f you k toks e rest H Hk F.
+    destruct k as [|[|[|j]]]; simpl; try exact H; try lia.
+    apply (climb_ladder _ _ _ _ _ 0); [|lia|exact F].
+    simpl. apply climb_is; [exact H|].
+    apply (follow_ok_mono (3 + j)); [lia | exact F].
+  Qed.
+
+  Lemma climb_from_ladder : forall f you k j toks e rest,
+    ladder lvls unops (ptop f you) f j toks = POk e rest ->
+    3 + j <= k -> follow_ok k rest ->
+    rule f you k toks = POk e rest.
+  Proof.
+    intros f you k j toks e rest H Hk F.
+    destruct k as [|[|[|j']]]; try lia. simpl.
+    apply (climb_ladder _ _ _ _ _ j); [exact H | lia | exact F].
+  Qed.
+
+  (* ---- printer facts ---- *)
+
+  Lemma pr_le : forall k e, level_of e <= k -> pr k e = tokens e.
+  Proof.
+    intros k e H. unfold ExprParser.pr, wrap.
+    apply Nat.leb_le in H. rewrite H. reflexivity.
+  Qed.
+
+  Lemma pr_gt : forall k e, k < level_of e -> pr k e = TLParen :: tokens e ++ [TRParen].
+  Proof.
+    intros k e H. unfold ExprParser.pr, wrap.
+    apply Nat.leb_gt in H. rewrite H. reflexivity.
+  Qed.
+
+  Lemma nonop_head_pr1 : forall e rest, nonop_head (pr 1 e ++ rest) = true.
+  Proof.
+    assert (G : forall e, (level_of e <= 1 -> forall rest, nonop_head (tokens e ++ rest) = true) ->
+                          forall rest, nonop_head (pr 1 e ++ rest) = true).
+    { intros e H rest. destruct (Nat.le_gt_cases (level_of e) 1) as [Hl|Hl].
+      - rewrite (pr_le _ _ Hl). apply H. exact Hl.
+      - rewrite (pr_gt _ _ Hl). reflexivity. }
+    induction e as [z|b|i|u a IHa|a IHa t arr|b l IHl r IHr|l IHl r IHr|a IHa|a IHa i IHi];
+      apply G; intros Hl rest; try reflexivity; try (simpl in Hl; unfold ExprParser.topk in Hl; lia).
+    - cbn [ExprParser.tokens]. fold (pr 1 a). rewrite <- app_assoc. apply IHa.
+    - cbn [ExprParser.tokens]. fold (pr 1 a). rewrite <- app_assoc. apply IHa.
+  Qed.
+
+  (* ---- the statements proved together by induction on the tree ---- *)
+
+  Fixpoint pspine (e : expr) : nat :=
+    match e with
+    | ELen a | EIdx a _ => S (pspine a)
+    | _ => 0
+    end.
+
+  Fixpoint bspine (j : nat) (e : expr) : nat :=
+    match e with
+    | EBin b l _ => if fst (bin_pos b) =? j then S (bspine j l) else 0
+    | _ => 0
+    end.
+
+  (* A: the unparenthesised tokens of e parse back at every rule that admits e's level *)
+  Definition A_stmt (e : expr) : Prop :=
+    forall f you k rest,
+      size e <= f -> wf_in you e -> level_of e <= k -> 1 <= k -> k < topk -> follow_ok k rest ->
+      rule f you k (tokens e ++ rest) = POk e rest.
+
+  (* T: ... and at ps_expr itself *)
+  Definition T_stmt (e : expr) : Prop :=
+    forall f you rest,
+      size e <= f -> wf_in you e -> follow_ok topk rest ->
+      ptop (S f) you (tokens e ++ rest) = POk e rest.
+
+  (* P: e in postfix-base position leaves the postfix loop running with e accumulated *)
+  Definition P_stmt (e : expr) : Prop :=
+    forall f you rest m,
+      size e < f -> wf_in you e -> pspine e <= m -> nolp rest ->
+      p_postfix_m (ptop f you) m (pr 1 e ++ rest)
+      = postfix_loop (ptop f you) (m - pspine e) e rest.
+
+  (* S: e in left-operand position of level j leaves bin_op's loop running with e accumulated *)
+  Definition S_stmt (e : expr) : Prop :=
+    forall j f you rest m,
+      j < length lvls -> size e < f -> wf_in you e -> bspine j e <= m ->
+      follow_ok (3 + j) rest ->
+      p_binlevel_m (ladder lvls unops (ptop f you) f j) (nth j lvls []) m (pr (4 + j) e ++ rest)
+      = binloop (ladder lvls unops (ptop f you) f j) (nth j lvls []) (m - bspine j e) e rest.
+
+  (* B: e printed for position k (parenthesised if necessary) parses back at rule k *)
+  Definition B_stmt (e : expr) : Prop :=
+    forall f you k rest,
+      size e < f -> wf_in you e -> 1 <= k -> k < topk -> follow_ok k rest ->
+      rule f you k (pr k e ++ rest) = POk e rest.
+
+  Lemma paren_primary : forall e f you rest,
+    T_stmt e -> size e < f -> wf_in you e ->
+    p_primary (ptop f you) (TLParen :: (tokens e ++ [TRParen]) ++ rest) = POk e rest.
+  Proof.
+    intros e f you rest HT Hs Hw.
+    destruct f as [|f']; [lia|].
+    rewrite <- app_assoc. unfold p_primary. cbv beta iota.
+    rewrite (HT f' you ([TRParen] ++ rest)); [reflexivity | lia | exact Hw | reflexivity].
+  Qed.
+
+  Lemma B_of : forall e, A_stmt e -> T_stmt e -> B_stmt e.
+  Proof.
+    intros e HA HT f you k rest Hs Hw Hk1 Hk2 F.
+    destruct (Nat.le_gt_cases (level_of e) k) as [Hl|Hl].
+    - rewrite (pr_le _ _ Hl). apply HA; try assumption. lia.
+    - rewrite (pr_gt _ _ Hl). apply climb_rule; try assumption.
+      + apply paren_primary; assumption.
+      + reflexivity.
+  Qed.
+
+  Lemma T_of_A : forall e, level_of e < topk -> A_stmt e -> T_stmt e.
+  Proof.
+    intros e Hlv HA f you rest Hs Hw F.
+    assert (H : ladder lvls unops (ptop f you) f (length lvls) (tokens e ++ rest) = POk e rest).
+    { apply (HA f you (3 + length lvls) rest); try assumption.
+      - unfold ExprParser.topk in Hlv. lia.
+      - lia.
+      - unfold ExprParser.topk. lia.
+      - apply (follow_ok_mono topk); [unfold ExprParser.topk; lia | exact F]. }
+    cbn [p_top]. cbv zeta. rewrite H.
+    destruct rest as [|t r]; [reflexivity|].
+    destruct t; try reflexivity. destruct o; try reflexivity.
+    unfold follow_ok in F. apply stop_tok_op in F. destruct F as (_ & _ & F).
+    exfalso. apply F; [lia | reflexivity].
+  Qed.
+
+  Lemma P_of_T : forall e, 2 <= level_of e -> T_stmt e -> P_stmt e.
+  Proof.
+    intros e Hl HT f you rest m Hs Hw Hm Hn.
+    assert (Hp : pspine e = 0) by (destruct e; simpl in Hl; try lia; reflexivity).
+    rewrite Hp, Nat.sub_0_r. rewrite pr_gt by lia.
+    unfold p_postfix_m. rewrite <- app_comm_cons. rewrite paren_primary by assumption. reflexivity.
+  Qed.
+
+  Lemma pr_skip : forall e j, level_of e <> 4 + j -> pr (4 + j) e = pr (3 + j) e.
+  Proof.
+    intros e j H.
+    destruct (Nat.le_gt_cases (level_of e) (3 + j)) as [Hl|Hl].
+    - rewrite !pr_le by lia. reflexivity.
+    - rewrite !pr_gt by lia. reflexivity.
+  Qed.
+
+  Lemma S_of_B : forall e, B_stmt e -> forall j f you rest m,
+    level_of e <> 4 + j ->
+    j < length lvls -> size e < f -> wf_in you e -> bspine j e <= m ->
+    follow_ok (3 + j) rest ->
+    p_binlevel_m (ladder lvls unops (ptop f you) f j) (nth j lvls []) m (pr (4 + j) e ++ rest)
+    = binloop (ladder lvls unops (ptop f you) f j) (nth j lvls []) (m - bspine j e) e rest.
+  Proof.
+    intros e HB j f you rest m Hne Hj Hs Hw Hm F.
+    assert (Hb : bspine j e = 0).
+    { destruct e; try reflexivity. simpl in *.
+      destruct (Nat.eqb_spec (fst (bin_pos b)) j); [lia | reflexivity]. }
+    rewrite Hb, Nat.sub_0_r. rewrite pr_skip by exact Hne.
+    unfold p_binlevel_m.
+    assert (H := HB f you (3 + j) rest Hs Hw).
+    change (rule f you (3 + j)) with (ladder lvls unops (ptop f you) f j) in H. rewrite H; [reflexivity | lia | unfold ExprParser.topk; lia | exact F].
+  Qed.
+
+  (* own-level variants (no parentheses around e itself, so fuel size e suffices) *)
+  Definition P'_stmt (e : expr) : Prop :=
+    forall f you rest m,
+      level_of e <= 1 -> size e <= f -> wf_in you e -> pspine e <= m -> nolp rest ->
+      p_postfix_m (ptop f you) m (tokens e ++ rest)
+      = postfix_loop (ptop f you) (m - pspine e) e rest.
+
+  Definition S'_stmt (e : expr) : Prop :=
+    forall j f you rest m,
+      level_of e = 4 + j ->
+      j < length lvls -> size e <= f -> wf_in you e -> bspine j e <= m ->
+      follow_ok (3 + j) rest ->
+      p_binlevel_m (ladder lvls unops (ptop f you) f j) (nth j lvls []) m (tokens e ++ rest)
+      = binloop (ladder lvls unops (ptop f you) f j) (nth j lvls []) (m - bspine j e) e rest.
+
+  Definition All (e : expr) : Prop := A_stmt e /\ T_stmt e /\ P'_stmt e /\ S'_stmt e.
+
+  Lemma B_of_All : forall e, All e -> B_stmt e.
+  Proof. intros e (HA & HT & _ & _). apply B_of; assumption. Qed.
+
+  Lemma P_of_All : forall e, All e -> P_stmt e.
+  Proof.
+    intros e (HA & HT & HP & _).
+    destruct (Nat.le_gt_cases (level_of e) 1) as [Hl|Hl].
+    - intros f you rest m Hs Hw Hm Hn. rewrite (pr_le _ _ Hl). apply HP; try assumption. lia.
+    - apply P_of_T; [lia | exact HT].
+  Qed.
+
+  Lemma S_of_All : forall e, All e -> S_stmt e.
+  Proof.
+    intros e HAll j f you rest m Hj Hs Hw Hm F.
+    destruct (Nat.eq_dec (level_of e) (4 + j)) as [He|He].
+    - destruct HAll as (_ & _ & _ & HS). rewrite pr_le by lia.
+      apply HS; try assumption. lia.
+    - apply S_of_B; try assumption. apply B_of_All; exact HAll.
+  Qed.
+
+  (* ---- atoms ---- *)
+
+  Lemma All_atom : forall e,
+    level_of e = 0 -> size e = 1 ->
+    (forall topf rest, nolp rest -> p_primary topf (tokens e ++ rest) = POk e rest) ->
+    nonop_head (tokens e) = true -> tokens e <> [] ->
+    All e.
+  Proof.
+    intros e Hl Hsz Hp Hh Hne.
+    assert (Hh' : forall rest, nonop_head (tokens e ++ rest) = true).
+    { intro rest. destruct (tokens e) as [|t r]; [congruence|]. exact Hh. }
+    assert (HA : A_stmt e).
+    { intros f you k rest Hs Hw Hlk Hk1 Hk2 F.
+      apply climb_rule.
+      - apply Hp. apply (follow_nolp k). exact F.
+      - apply Hh'.
+      - exact Hk1.
+      - exact F. }
+    split; [exact HA|]. split; [|split].
+    - apply T_of_A; [rewrite Hl; unfold ExprParser.topk; lia | exact HA].
+    - intros f you rest m _ Hs Hw Hm Hn.
+      assert (Hps : pspine e = 0) by (destruct e; simpl in Hl; try lia; reflexivity).
+      rewrite Hps, Nat.sub_0_r. unfold p_postfix_m. rewrite Hp by exact Hn. reflexivity.
+    - intros j f you rest m He. lia.
+  Qed.
+
+  Lemma All_int : forall z, All (EInt z).
+  Proof. intro z. apply All_atom; try reflexivity. discriminate. Qed.
+
+  Lemma All_bool : forall b, All (EBool b).
+  Proof. intro b. apply All_atom; try reflexivity. discriminate. Qed.
+
+  Lemma All_var : forall i, All (EVar i).
+  Proof.
+    intro i. apply All_atom; try reflexivity; [|discriminate].
+    intros topf rest Hn. destruct rest as [|t r]; [reflexivity|].
+    destruct t; try reflexivity. destruct Hn.
+  Qed.
+
+  (* ---- generic closing step for expressions whose own level is 1 (postfix) ---- *)
+
+  Lemma All_postfix : forall e,
+    level_of e = 1 -> P'_stmt e -> pspine e <= size e ->
+    (forall rest, nonop_head (tokens e ++ rest) = true) ->
+    All e.
+  Proof.
+    intros e Hl HP Hsp Hh.
+    assert (HA : A_stmt e).
+    { intros f you k rest Hs Hw Hlk Hk1 Hk2 F.
+      assert (H1 : p_postfix (ptop f you) f (tokens e ++ rest) = POk e rest).
+      { unfold p_postfix. rewrite HP; try assumption; try lia.
+        - apply postfix_loop_stop. apply (follow_ok_mono k); [lia | exact F].
+        - apply (follow_nolp k). exact F. }
+      destruct k as [|[|[|j]]]; try lia.
+      - exact H1.
+      - apply climb_from_unary; [|lia|exact F]. rewrite p_unary_nonop by apply Hh. exact H1.
+      - apply climb_from_unary; [|lia|exact F]. rewrite p_unary_nonop by apply Hh. exact H1. }
+    split; [exact HA|]. split; [|split].
+    - apply T_of_A; [rewrite Hl; unfold ExprParser.topk; lia | exact HA].
+    - exact HP.
+    - intros j f you rest m He. lia.
+  Qed.
+
+  Lemma All_len : forall a, All a -> All (ELen a).
+  Proof.
+    intros a Ha. assert (HPa := P_of_All a Ha).
+    apply All_postfix.
+    - reflexivity.
+    - intros f you rest m _ Hs Hw Hm Hn. simpl in Hs, Hw, Hm.
+      cbn [ExprParser.tokens]. fold (pr 1 a). rewrite <- app_assoc.
+      rewrite (HPa f you _ m); try assumption; try lia; [|exact I].
+      cbn [pspine]. replace (m - pspine a) with (S (m - S (pspine a))) by lia.
+      reflexivity.
+    - simpl. clear. induction a; simpl; lia.
+    - intro rest. cbn [ExprParser.tokens]. fold (pr 1 a). rewrite <- app_assoc.
+      apply nonop_head_pr1.
+  Qed.
+
+  Lemma All_idx : forall a i, All a -> All i -> All (EIdx a i).
+  Proof.
+    intros a i Ha Hi. assert (HPa := P_of_All a Ha). destruct Hi as (_ & HTi & _ & _).
+    apply All_postfix.
+    - reflexivity.
+    - intros f you rest m _ Hs Hw Hm Hn. simpl in Hs, Hw, Hm. destruct Hw as [Hwa Hwi].
+      cbn [ExprParser.tokens]. fold (pr 1 a). rewrite <- app_assoc.
+      rewrite <- app_comm_cons. rewrite <- app_assoc.
+      rewrite (HPa f you _ m); try assumption; try lia; [|exact I].
+      cbn [pspine]. replace (m - pspine a) with (S (m - S (pspine a))) by lia.
+      destruct f as [|f']; [lia|].
+      cbn [postfix_loop].
+      rewrite (HTi f' you ([TRSquare] ++ rest)); [reflexivity | lia | exact Hwi | reflexivity].
+    - simpl. assert (pspine a <= size a) by (clear; induction a; simpl; lia). lia.
+    - intro rest. cbn [ExprParser.tokens]. fold (pr 1 a). rewrite <- app_assoc.
+      apply nonop_head_pr1.
+  Qed.
+
+  (* ---- unary ---- *)
+
+  Lemma All_un : forall u a, All a -> All (EUn u a).
+  Proof.
+    intros u a Ha. assert (HBa := B_of_All a Ha).
+    assert (HA : A_stmt (EUn u a)).
+    { intros f you k rest Hs Hw Hlk Hk1 Hk2 F. simpl in Hs, Hw, Hlk.
+      apply climb_from_unary; [|exact Hlk|exact F].
+      cbn [ExprParser.tokens]. fold (pr 2 a). rewrite <- app_comm_cons.
+      cbn [p_unary]. rewrite un_fact.
+      assert (H := HBa f you 2 rest).
+      change (rule f you 2) with (p_unary unops (ptop f you) f) in H.
+      rewrite H; [reflexivity | lia | exact Hw | lia | unfold ExprParser.topk; lia |].
+      apply (follow_ok_mono k); [lia | exact F]. }
+    split; [exact HA|]. split; [|split].
+    - apply T_of_A; [simpl; unfold ExprParser.topk; lia | exact HA].
+    - intros f you rest m Hl. simpl in Hl. lia.
+    - intros j f you rest m He. simpl in He. lia.
+  Qed.
+
+  (* ---- is ---- *)
+
+  Lemma follow_is : forall r, follow_ok 2 (TOp IS :: r).
+  Proof.
+    intro r. unfold follow_ok. apply stop_tok_op. split; [reflexivity|]. split.
+    - lia.
+    - unfold ExprParser.topk. lia.
+  Qed.
+
+  Lemma All_is : forall a t arr, All a -> All (EIs a t arr).
+  Proof.
+    intros a t arr Ha. assert (HBa := B_of_All a Ha).
+    assert (HA : A_stmt (EIs a t arr)).
+    { intros f you k rest Hs Hw Hlk Hk1 Hk2 F. simpl in Hs, Hw, Hlk. destruct Hw as [Ht Hw].
+      apply (climb_from_ladder f you k 0); [|exact Hlk|exact F].
+      cbn [ladder]. unfold p_is.
+      cbn [ExprParser.tokens]. fold (pr 2 a). rewrite <- app_assoc.
+      assert (H := HBa f you 2).
+      change (rule f you 2) with (p_unary unops (ptop f you) f) in H.
+      rewrite H; [| lia | exact Hw | lia | unfold ExprParser.topk; lia | apply follow_is].
+      assert (F3 : follow_ok 1 rest) by (apply (follow_ok_mono k); [lia | exact F]).
+      destruct arr.
+      - destruct t; try reflexivity. congruence.
+      - destruct t; try congruence;
+          (destruct rest as [|t' r']; [reflexivity|]; destruct t'; try reflexivity;
+           simpl in F3; discriminate). }
+    split; [exact HA|]. split; [|split].
+    - apply T_of_A; [simpl; unfold ExprParser.topk; lia | exact HA].
+    - intros f you rest m Hl. simpl in Hl. lia.
+    - intros j f you rest m He. simpl in He. lia.
+  Qed.
+
+  (* ---- binary ---- *)
+
+  Lemma tokens_bin : forall b l r,
+    tokens (EBin b l r)
+    = pr (4 + fst (bin_pos b)) l ++ TOp (snd (bin_pos b)) :: pr (3 + fst (bin_pos b)) r.
+  Proof. intros. cbn [ExprParser.tokens]. destruct (bin_pos b). reflexivity. Qed.
+
+  Lemma bspine_le : forall j e, bspine j e <= size e.
+  Proof.
+    intros j e. induction e; simpl; try lia.
+    destruct (fst (bin_pos b) =? j); lia.
+  Qed.
+
+  Lemma follow_binop : forall b r, follow_ok (3 + fst (bin_pos b)) (TOp (snd (bin_pos b)) :: r).
+  Proof.
+    intros b r. destruct (bin_fact b) as (_ & Hbelow & Hnis & Hjlt).
+    unfold follow_ok. apply stop_tok_op.
+    replace (3 + fst (bin_pos b) - 3) with (fst (bin_pos b)) by lia.
+    split; [exact Hbelow|]. split.
+    - intros _. exact Hnis.
+    - unfold ExprParser.topk. lia.
+  Qed.
+
+  Lemma All_bin : forall b l r, All l -> All r -> All (EBin b l r).
+  Proof.
+    intros b l r Hl Hr. assert (HSl := S_of_All l Hl). assert (HBr := B_of_All r Hr).
+    destruct (bin_fact b) as (Hlk & Hbelow & Hnis & Hjlt).
+    assert (HS : S'_stmt (EBin b l r)).
+    { intros j f you rest m He Hj Hs Hw Hm F.
+      cbn [ExprParser.level_of] in He.
+      assert (Ej : j = fst (bin_pos b)) by lia. subst j.
+      simpl in Hs. destruct Hw as [Hwl Hwr].
+      cbn [bspine] in *. rewrite Nat.eqb_refl in *.
+      rewrite tokens_bin. rewrite <- app_assoc. rewrite <- app_comm_cons.
+      rewrite (HSl (fst (bin_pos b)) f you _ m); try assumption; try lia;
+        [|apply follow_binop].
+      replace (m - bspine (fst (bin_pos b)) l)
+        with (S (m - S (bspine (fst (bin_pos b)) l))) by lia.
+      cbn [binloop]. rewrite Hlk.
+      assert (H := HBr f you (3 + fst (bin_pos b)) rest).
+      change (rule f you (3 + fst (bin_pos b)))
+        with (ladder lvls unops (ptop f you) f (fst (bin_pos b))) in H.
+      rewrite H; [reflexivity | lia | exact Hwr | lia | unfold ExprParser.topk; lia | exact F]. }
+    assert (HA : A_stmt (EBin b l r)).
+    { intros f you k rest Hs Hw Hlk' Hk1 Hk2 F. cbn [ExprParser.level_of] in Hlk'.
+      apply (climb_from_ladder f you k (S (fst (bin_pos b)))); [|lia|exact F].
+      cbn [ladder].
+      rewrite (HS (fst (bin_pos b)) f you rest f); try assumption; try reflexivity.
+      - apply (binloop_stop _ (fst (bin_pos b)) _ _ _ k); [lia | exact F].
+      - pose proof (bspine_le (fst (bin_pos b)) (EBin b l r)). lia.
+      - apply (follow_ok_mono k); [lia | exact F]. }
+    split; [exact HA|]. split; [|split].
+    - apply T_of_A; [cbn [ExprParser.level_of]; unfold ExprParser.topk; lia | exact HA].
+    - intros f you rest m Hl1. cbn [ExprParser.level_of] in Hl1. lia.
+    - exact HS.
+  Qed.
+
+  (* ---- speculation ---- *)
+
+  Lemma follow_spec : forall r, follow_ok (3 + length lvls) (TOp SPECULATION :: r).
+  Proof.
+    intro r. unfold follow_ok. apply stop_tok_op.
+    replace (3 + length lvls - 3) with (length lvls) by lia.
+    split; [exact spec_fact|]. split.
+    - intros _. discriminate.
+    - unfold ExprParser.topk. lia.
+  Qed.
+
+  Lemma All_spec : forall l r, All l -> All r -> All (ESpec l r).
+  Proof.
+    intros l r Hl Hr. assert (HBl := B_of_All l Hl). assert (HBr := B_of_All r Hr).
+    assert (Etk : topk - 1 = 3 + length lvls) by (unfold ExprParser.topk; lia).
+    split; [|split; [|split]].
+    - intros f you k rest Hs Hw Hlk. cbn [ExprParser.level_of] in Hlk. lia.
+    - intros f you rest Hs Hw F. simpl in Hs. destruct Hw as (Hy & Hwl & Hwr). subst you.
+      cbn [ExprParser.tokens]. fold (pr (topk - 1) l). fold (pr (topk - 1) r).
+      rewrite Etk. rewrite <- app_assoc. rewrite <- app_comm_cons.
+      assert (H1 := HBl f true (3 + length lvls) (TOp SPECULATION :: pr (3 + length lvls) r ++ rest)).
+      assert (H2 := HBl f false (3 + length lvls) (TOp SPECULATION :: pr (3 + length lvls) r ++ rest)).
+      assert (H3 := HBr f false (3 + length lvls) rest).
+      change (rule f true (3 + length lvls))
+        with (ladder lvls unops (ptop f true) f (length lvls)) in H1.
+      change (rule f false (3 + length lvls))
+        with (ladder lvls unops (ptop f false) f (length lvls)) in H2, H3.
+      cbn [p_top]. cbv zeta.
+      rewrite H1; [| lia | apply wf_in_mono; exact Hwl | lia | unfold ExprParser.topk; lia
+                   | apply follow_spec].
+      cbv beta iota.
+      rewrite H2; [| lia | exact Hwl | lia | unfold ExprParser.topk; lia | apply follow_spec].
+      cbv beta iota delta [expect].
+      rewrite H3; [reflexivity | lia | exact Hwr | lia | unfold ExprParser.topk; lia |].
+      apply (follow_ok_mono topk); [unfold ExprParser.topk; lia | exact F].
+    - intros f you rest m Hl1. cbn [ExprParser.level_of] in Hl1. unfold ExprParser.topk in Hl1. lia.
+    - intros j f you rest m He Hj. cbn [ExprParser.level_of] in He. unfold ExprParser.topk in He. lia.
+  Qed.
+
+  Theorem All_all : forall e, All e.
+  Proof.
+    induction e.
+    - apply All_int.
+    - apply All_bool.
+    - apply All_var.
+    - apply All_un; assumption.
+    - apply All_is; assumption.
+    - apply All_bin; assumption.
+    - apply All_spec; assumption.
+    - apply All_len; assumption.
+    - apply All_idx; assumption.
+  Qed.
+
+  Theorem roundtrip_generic : forall e, wf_expr e ->
+    parse_expr lvls unops (S (size e)) (tokens e) = Some (e, []).
+  Proof.
+    intros e Hw. destruct (All_all e) as (_ & HT & _).
+    unfold parse_expr. rewrite <- (app_nil_r (tokens e)).
+    rewrite (HT (size e) true []); [reflexivity | lia | exact Hw | exact I].
+  Qed.
+End Roundtrip.
+
+(* ============================================================================================ *)
+(* Instantiation with the regenerated ladder                                                    *)
+(* ============================================================================================ *)
+From HidV.Gen Require Import GenGrammar.
+
+(* (a) the regenerated data is the documented data *)
+Lemma levels_are_documented_proof : levels = Spec.documented_levels.
+Proof. vm_compute. reflexivity. Qed.
+
+Lemma unary_ops_are_documented_proof : unary_ops = Spec.documented_unary.
+Proof. vm_compute. reflexivity. Qed.
+
+Lemma shape_is_documented_proof : shape = Spec.documented_shape.
+Proof. vm_compute. reflexivity. Qed.
+
+Lemma documented_table_ok : table_ok Spec.documented_levels Spec.documented_unary = true.
+Proof. vm_compute. reflexivity. Qed.
+
+(* (b) round trip, all trees, explicit fuel *)
+Lemma parse_print_roundtrip_fuel_proof : forall e fuel, wf_expr e -> size e < fuel ->
+  parse_expr levels unary_ops fuel (tokens_min e) = Some (e, []).
+Proof.
+  intros e fuel Hw Hf. rewrite levels_are_documented_proof, unary_ops_are_documented_proof.
+  destruct (All_all _ _ documented_table_ok e) as (_ & HT & _).
+  destruct fuel as [|f]; [lia|].
+  unfold parse_expr, tokens_min. rewrite <- (app_nil_r (tokens _ _ e)).
+  rewrite (HT f true []); [reflexivity | lia | exact Hw | exact I].
+Qed.
+
+Lemma parse_print_roundtrip_proof : forall e, wf_expr e ->
+  exists fuel, parse_expr levels unary_ops fuel (tokens_min e) = Some (e, []).
+Proof.
+  intros e Hw. exists (S (size e)). apply parse_print_roundtrip_fuel_proof; [exact Hw | lia].
+Qed.
+
+(* A tree in a context WITHOUT YOU (operands of `??`, function bodies): same statement for the
+   context flag false, for trees without `??`. *)
+Lemma parse_print_roundtrip_noyou_proof : forall e fuel, wf_in false e -> size e < fuel ->
+  p_top levels unary_ops fuel false (tokens_min e) = POk e [].
+Proof.
+  intros e fuel Hw Hf. rewrite levels_are_documented_proof, unary_ops_are_documented_proof.
+  destruct (All_all _ _ documented_table_ok e) as (_ & HT & _).
+  destruct fuel as [|f]; [lia|].
+  unfold tokens_min. rewrite <- (app_nil_r (tokens _ _ e)).
+  apply HT; [lia | exact Hw | exact I].
+Qed.
+
+(* The hypotheses are satisfiable (a tree using every constructor). *)
+Definition wf_witness : expr :=
+  ESpec (EBin Or (EBin Sub (EVar 1) (EBin Sub (EVar 2) (EInt 3)))
+                 (EIs (EUn Neg (EIdx (EVar 3) (ELen (EVar 4)))) DByte true))
+        (EUn Not (EBool true)).
+Lemma wf_witness_wf : wf_expr wf_witness.
+Proof. unfold wf_expr, wf_witness; simpl; intuition (try lia; try discriminate). Qed.
+
+(* (c) grouping ------------------------------------------------------------------------------ *)
+
+Definition parse_toks (toks : list token) : option (expr * list token) :=
+  parse_expr levels unary_ops (S (length toks)) toks.
+
+(* level index and token of a binary constructor in the regenerated table *)
+Definition prec (b : binop) : nat := fst (bin_pos levels b).
+Definition btok (b : binop) : optok := snd (bin_pos levels b).
+Definition utok (u : unop) : optok := un_tok unary_ops u.
+
+(* binary operators of one level group to the left *)
+Lemma grouping_left_assoc_proof : forall b1 b2 x y z, prec b1 = prec b2 ->
+  parse_toks [TId x; TOp (btok b1); TId y; TOp (btok b2); TId z]
+  = Some (EBin b2 (EBin b1 (EVar x) (EVar y)) (EVar z), []).
+Proof. intros b1 b2 x y z H; destruct b1, b2; try discriminate H; reflexivity. Qed.
+
+(* a tighter level binds tighter, on either side *)
+Lemma grouping_tighter_right_proof : forall b1 b2 x y z, prec b2 < prec b1 ->
+  parse_toks [TId x; TOp (btok b1); TId y; TOp (btok b2); TId z]
+  = Some (EBin b1 (EVar x) (EBin b2 (EVar y) (EVar z)), []).
+Proof.
+  intros b1 b2 x y z H; destruct b1, b2; vm_compute in H;
+    try (exfalso; lia); reflexivity.
+Qed.
+
+Lemma grouping_tighter_left_proof : forall b1 b2 x y z, prec b1 < prec b2 ->
+  parse_toks [TId x; TOp (btok b1); TId y; TOp (btok b2); TId z]
+  = Some (EBin b2 (EBin b1 (EVar x) (EVar y)) (EVar z), []).
+Proof.
+  intros b1 b2 x y z H; destruct b1, b2; vm_compute in H;
+    try (exfalso; lia); reflexivity.
+Qed.
+
+(* parentheses override: any two binary operators, either grouping can be forced *)
+Lemma grouping_parens_right_proof : forall b1 b2 x y z,
+  parse_toks [TId x; TOp (btok b1); TLParen; TId y; TOp (btok b2); TId z; TRParen]
+  = Some (EBin b1 (EVar x) (EBin b2 (EVar y) (EVar z)), []).
+Proof. intros b1 b2 x y z; destruct b1, b2; reflexivity. Qed.
+
+Lemma grouping_parens_left_proof : forall b1 b2 x y z,
+  parse_toks [TLParen; TId x; TOp (btok b1); TId y; TRParen; TOp (btok b2); TId z]
+  = Some (EBin b2 (EBin b1 (EVar x) (EVar y)) (EVar z), []).
+Proof. intros b1 b2 x y z; destruct b1, b2; reflexivity. Qed.
+
+(* postfix binds tighter than any operator: unary, `is`, binary *)
+Lemma grouping_postfix_over_unary_proof : forall u x y,
+  parse_toks [TOp (utok u); TId x; TDot; TId length_id] = Some (EUn u (ELen (EVar x)), []) /\
+  parse_toks [TOp (utok u); TId x; TLSquare; TId y; TRSquare] = Some (EUn u (EIdx (EVar x) (EVar y)), []).
+Proof. intros u x y; destruct u; split; reflexivity. Qed.
+
+Lemma grouping_postfix_over_binary_proof : forall b x y z,
+  parse_toks [TId x; TOp (btok b); TId y; TDot; TId length_id]
+  = Some (EBin b (EVar x) (ELen (EVar y)), []) /\
+  parse_toks [TId x; TOp (btok b); TId y; TLSquare; TId z; TRSquare]
+  = Some (EBin b (EVar x) (EIdx (EVar y) (EVar z)), []).
+Proof. intros b x y z; destruct b; split; reflexivity. Qed.
+
+(* unary binds tighter than `is`, `is` tighter than every binary operator *)
+Lemma grouping_unary_over_is_proof : forall u x t, t <> DEmpty ->
+  parse_toks [TOp (utok u); TId x; TOp IS; TType t] = Some (EIs (EUn u (EVar x)) t false, []).
+Proof. intros u x t H; destruct u, t; try congruence; reflexivity. Qed.
+
+Lemma grouping_is_over_binary_proof : forall b x y t, t <> DEmpty ->
+  parse_toks [TId x; TOp (btok b); TId y; TOp IS; TType t]
+  = Some (EBin b (EVar x) (EIs (EVar y) t false), []) /\
+  parse_toks [TId x; TOp IS; TType t; TOp (btok b); TId y]
+  = Some (EBin b (EIs (EVar x) t false) (EVar y), []).
+Proof. intros b x y t H; destruct b, t; try congruence; split; reflexivity. Qed.
+
+(* unary binds tighter than every binary operator *)
+Lemma grouping_unary_over_binary_proof : forall u b x y,
+  parse_toks [TOp (utok u); TId x; TOp (btok b); TId y] = Some (EBin b (EUn u (EVar x)) (EVar y), []).
+Proof. intros u b x y; destruct u, b; reflexivity. Qed.
+
+(* `is` does not chain: the second `is` is left unconsumed *)
+Lemma grouping_is_no_chain_proof : forall x t1 t2, t1 <> DEmpty ->
+  parse_toks [TId x; TOp IS; TType t1; TOp IS; TType t2]
+  = Some (EIs (EVar x) t1 false, [TOp IS; TType t2]).
+Proof. intros x t1 t2 H; destruct t1, t2; try congruence; reflexivity. Qed.
+
+(* `??` is loosest and does not chain *)
+Lemma grouping_spec_loosest_proof : forall b x y z w,
+  parse_toks [TId x; TOp (btok b); TId y; TOp SPECULATION; TId z; TOp (btok b); TId w]
+  = Some (ESpec (EBin b (EVar x) (EVar y)) (EBin b (EVar z) (EVar w)), []).
+Proof. intros b x y z w; destruct b; reflexivity. Qed.
+
+Lemma grouping_spec_no_chain_proof : forall x y z,
+  parse_toks [TId x; TOp SPECULATION; TId y; TOp SPECULATION; TId z]
+  = Some (ESpec (EVar x) (EVar y), [TOp SPECULATION; TId z]).
+Proof. intros; reflexivity. Qed.
+
+(* ... and cannot be nested even in parentheses (the operands lose the YOU context):
+   this is why wf_expr excludes such trees. *)
+Lemma spec_nested_is_error : forall x y z,
+  p_top levels unary_ops 9 true
+        [TLParen; TId x; TOp SPECULATION; TId y; TRParen; TOp SPECULATION; TId z] = PErr.
+Proof. intros; reflexivity. Qed.
+
+(* The statement of DESIGN.md, C11, kept visible in full. *)
+Definition parse_print_roundtrip_full_statement : Prop :=
+  forall e, wf_expr e ->
+    exists fuel, parse_expr levels unary_ops fuel (tokens_min e) = Some (e, []).
